@@ -147,7 +147,15 @@ func (r *RolloutReconciler) Reconcile(ctx context.Context, req ctrl.Request) (ct
 	}
 	var recheckTime *time.Time
 
-	switch rollout.Status.Phase {
+	// when this reconcile moves the rollout into Terminating or Disabling, the handler of the phase that was
+	// just left must not run any more: it would continue its own cleanup sequence on the new status.
+	// The new phase is persisted below and its handler runs on the next reconcile.
+	phase := rollout.Status.Phase
+	if newStatus != nil && newStatus.Phase != phase &&
+		(newStatus.Phase == v1beta1.RolloutPhaseTerminating || newStatus.Phase == v1beta1.RolloutPhaseDisabling) {
+		phase = ""
+	}
+	switch phase {
 	case v1beta1.RolloutPhaseProgressing:
 		recheckTime, err = r.reconcileRolloutProgressing(rollout, newStatus)
 	case v1beta1.RolloutPhaseTerminating:
